@@ -178,6 +178,11 @@ def check(ctx):
                               {'forwarded': [T.pretty(x)[:200] for x in (calls[0]['args'] if calls else [])]})
         ctx.guard('R3.projector', fsite(a), rp)
 
+    # the weights in the denominator of the point weight are the selection probabilities (R5)
+    from . import C19
+    from .common import Proxy, share
+    share(ctx, 'C19', 'R5/C19.', ['R1.'])
+
     # ---------------------------------------------------------------- R4 PLAIN weight is one
     for f3 in instances(p, 'hep::plain_iteration'):
         ctx.analysed(f3)
